@@ -1,2 +1,19 @@
-(* C18 t-digest part -- being written *)
-From DS Require Import Base.Prelude Model.TDigestCodec Spec.TDigestLayout.
+(* C18, t-digest part -- the serialized size is a function of the number of centroids, and the
+   buffer is bounded by the configuration.  The bound on the number of centroids itself (2k + 30) is
+   the analytic half of C15: measured, no theorem.  Statements only. *)
+From Coq Require Import QArith.
+From DS Require Import Base.Prelude Base.TDigestBits Model.TDigest Model.TDigestCodec Spec.TDigestSpec.
+From DS Require Import Proofs.TDigestCodec Proofs.TDigestProofsInproc.
+
+Theorem c18_tdigest_image_size : forall s, b_buf s = [] ->
+  length (tdb_enc s) =
+  if tdb_is_empty s then 8%nat else if tdb_is_single s then 16%nat else (32 + 16 * length (b_cs s))%nat.
+Proof. exact tdb_image_size. Qed.
+
+(* in process, the buffer never exceeds BUFFER_MULTIPLIER * (2k + fudge) values (constants translated
+   from the source) *)
+Theorem c18_tdigest_buffer_bound : forall h d, reach h d -> (Z.of_nat (length (td_buf d)) <= buf_limit (td_k d))%Z.
+Proof. exact buffer_bound. Qed.
+
+Example c18_tdigest_example : buf_limit 200 = 1640%Z /\ buf_limit 10 = 200%Z.
+Proof. split; reflexivity. Qed.
